@@ -123,6 +123,8 @@ func coqVal(v Val) string {
 		return "VStr " + hx.CoqN(v.S)
 	case "a":
 		return "VArr " + hx.CoqN(v.S)
+	case "z": // JSON null: no model value; an array code nothing else uses
+		return "VArr 999999%N"
 	default:
 		return "VBool " + hx.CoqBool(v.B)
 	}
